@@ -216,6 +216,14 @@ def check_crash(pid, tier, seed):
             j["chain"] = True
             j["chainCap"] = prof["chain_cap"][ti]
     corpus = we.corpus_jobs(pid)
+    if pid == "C03":
+        # directories a power loss inside the very first Open leaves behind on the production stack: a temporary
+        # metadata database in any state of completion (real fs + bolt; Open must succeed and the WAL be writable)
+        for k, kind in enumerate(("garbage", "empty", "valid", "short", "torn")):
+            corpus.append({"id": "lefttmp-%s" % kind, "family": "crash", "codec": "ident", "segSize": 128, "seed": seed, "real": True,
+                           "leftTmp": kind, "probeEach": True, "expand": False,
+                           "steps": [{"op": "store", "first": 1, "cids": [1, 2], "sz": [1, 1]}, {"op": "reopen"},
+                                     {"op": "store", "first": 3, "cids": [3], "sz": [1]}]})
     log("%s: %d workloads -> %d jobs (+%d corpus)" % (pid, len(wl), len(jobs), len(corpus)))
     eng.crash_rounds(jobs, prof["depth"][ti], prof["per_run"][ti], prof["expand_next"][ti],
                      max_exh=(9 if ti == 0 else 11), nrandom=(32 if ti == 0 else 128), extra_final=corpus)
@@ -346,12 +354,16 @@ def check_fault(pid, tier, seed):
             eng.rng.shuffle(ps)
             ps = ps[:cap]
         for k, fl in enumerate(ps):
-            j = dict(byid[path])
-            j["id"] = "%s.p%d" % (path, k)
-            j["expand"] = False
-            j["faults"] = fl
-            j["cont"] = we.CONT_TEMPLATES[k % len(we.CONT_TEMPLATES)]
-            jobs.append(j)
+            # what follows the fault: one of the continuation shapes in turn, and always the two truncations
+            # (a writer left in a wrong state by a failed append shows when the segment is force-sealed or dropped)
+            ts = [k % len(we.CONT_TEMPLATES)] + [t for t in (7, 8) if t != k % len(we.CONT_TEMPLATES) and (t == 7 or k % 3 == 0)]
+            for t in ts:
+                j = dict(byid[path])
+                j["id"] = "%s.p%d.t%d" % (path, k, t)
+                j["expand"] = False
+                j["faults"] = fl
+                j["cont"] = we.CONT_TEMPLATES[t]
+                jobs.append(j)
             sigs.add(json.dumps([path, fl], sort_keys=True))
     corpus = we.corpus_jobs(pid)
     log("%s: %d workloads, %d fault plans (+%d corpus)" % (pid, len(base), len(jobs), len(corpus)))
